@@ -38,6 +38,7 @@ func scenarios(tier string) []vx.Scenario {
 			c04Scenario([]listReply{{ids: []string{"a", "b"}}}, map[string]string{"a": "upload-err"}, pb, false),
 			c04Scenario(slowHist([]listReply{{ids: []string{"a", "b"}}, {ids: []string{"a"}}}), map[string]string{"b": "upload-503x3"}, 0, true),
 		}
+		out = append(out, c01History("503once", pb), c01History("erronce", pb), c01History("", 0))
 		if th {
 			out = append(out, c04Scenario([]listReply{{ids: []string{"a", "b", "c"}}}, nil, 2, false),
 				c04Scenario([]listReply{{ids: []string{"a", "b"}}}, nil, 3, false),
@@ -194,6 +195,59 @@ func c04Scenario(h []listReply, faults map[string]string, pb int, single bool) v
 				return x
 			}
 		}}
+}
+
+// c01History: a request with a large response and an unannounced trailer first, then two small requests at
+// the same time, one of whose uploads fails once and is retried, then one more: every acknowledged upload
+// carries exactly its own request's response - status, token, body and trailers.
+func c01History(retry string, pb int) vx.Scenario {
+	return vx.Scenario{Name: "c01/history/big-then-two-with-" + retry, PB: pb, Delay: true, MaxSteps: 60000, Single: pb == 0,
+		Setup: func(s *vs.Sched) func(*vs.Result) vx.Exec {
+			w := newWorld(s)
+			w.lists = []listReply{{ids: []string{"z"}}, {ids: []string{"a", "b"}, after: "z"}, {ids: []string{"c"}, after: "a"}}
+			big := strings.Repeat("Z", 6000)
+			w.backend["z"] = &backendPlan{body: big, trailer: http.Header{"X-Checksum": {"checksum-of-z"}}}
+			w.uploadFault["a"] = retry
+			w.startAgent()
+			return func(r *vs.Result) vx.Exec {
+				var x vx.Exec
+				baseViolations(r, &x)
+				if r.Exited {
+					x.Violations = append(x.Violations, fmt.Sprintf("EXIT: agent exited (code %d)", r.ExitCode))
+				}
+				var obs []string
+				for _, id := range []string{"z", "a", "b", "c"} {
+					u := w.uploadFor(id)
+					if u == nil {
+						if !r.Horizon && len(r.Panics) == 0 && !r.Exited {
+							x.Violations = append(x.Violations, fmt.Sprintf("NOUPLOAD: the response to request %s was never uploaded completely", id))
+						}
+						continue
+					}
+					p := parseUpload(u.raw)
+					wantBody, wantTr := "response-for-"+id, ""
+					if id == "z" {
+						wantBody, wantTr = big, "checksum-of-z"
+					}
+					obs = append(obs, fmt.Sprintf("%s:%d/%s/%d/%q", id, p.status, p.header.Get("X-Tok"), len(p.body), p.trailer.Get("X-Checksum")))
+					if p.err != nil || p.status != 200 || p.header.Get("X-Tok") != id || p.body != wantBody {
+						x.Violations = append(x.Violations, fmt.Sprintf("MIXUP: the acknowledged upload for request %s carries status %d, X-Tok %q, a body of %d bytes starting %q (err %v); its own response is 200, %q, %d bytes", id, p.status, p.header.Get("X-Tok"), len(p.body), clipS(p.body), p.err, id, len(wantBody)))
+					}
+					if got := p.trailer.Get("X-Checksum"); got != wantTr {
+						x.Violations = append(x.Violations, fmt.Sprintf("MIXUP: the upload for request %s carries the trailer X-Checksum=%q, its backend response has %q", id, got, wantTr))
+					}
+				}
+				x.Obs = strings.Join(obs, " ")
+				return x
+			}
+		}}
+}
+
+func clipS(s string) string {
+	if len(s) > 24 {
+		return s[:24] + "..."
+	}
+	return s
 }
 
 func faultSuffix(faults map[string]string) string {
